@@ -1,16 +1,18 @@
 \* generated by gensnap.py - edit there
 SPECIFICATION Spec
 CONSTANTS
- Clients = {1, 2, 3}
- MaxLocal = 4
- MaxSyncs = 10
- MaxPatches = 0
+ Clients = {1, 2}
+ MaxLocal = 1
+ MaxSyncs = 2
+ MaxPatches = 1
  MaxUpdaters = 2
- InitSnapshot = TRUE
+ InitSnapshot = FALSE
 INVARIANT SnapshotWithinLog
 INVARIANT UserDocIsSnapshot
 INVARIANT OneUpdaterAtATime
 INVARIANT PubsMonotone
 INVARIANT PubsWithinLog
-INVARIANT StepDump
+PROPERTY UserDocMonotone
+VIEW StateView
+ACTION_CONSTRAINT EdgeDump
 CHECK_DEADLOCK FALSE
